@@ -46,6 +46,7 @@ type Cfg struct {
 	RelativeTwins    bool // twin element files also when the root location is relative (C16 open finding)
 	PathChains       bool // /a0 -> /a1 -> /p0: chains of path item references inside the root document
 	CallbackPathRefs bool // a callback's path item may be a reference to a path of the same document
+	AliasChains      bool // with NoChains: a root component may be a bare reference to an object component of another document
 	NullEntries      bool // a null entry in encoding maps, sorted before the entry with references (the only map whose null entries stay nil after parsing)
 }
 
@@ -207,6 +208,20 @@ func (g *gen) ensureComponent(file, kind string, depth int) string {
 		}
 		g.feat["external"]++
 		v = M{"$ref": g.relSpelling(file, ef)}
+	} else if depth > 0 && g.cfg.NoChains && g.cfg.AliasChains && len(g.allDocs) > 1 && file == g.allDocs[0] && kind != "callback" && g.chance(5, "aliaschain") {
+		// a component of the root document that is only a reference to an object component of another
+		// document (a one-hop chain; that document's components are objects when chains are off)
+		tf := g.pickOtherDoc(file)
+		g.noInProg++
+		n := g.ensureComponent(tf, kind, depth-1)
+		g.noInProg--
+		if tm, _ := g.comps(tf, kind)[n].(M); tm != nil && tm["$ref"] == nil {
+			g.feat["chain:alias-of-external-object"]++
+			g.feat["external"]++
+			v = M{"$ref": g.relSpelling(file, tf) + "#/components/" + Section[kind] + "/" + esc(n)}
+		} else {
+			v = g.object(kind, file, depth-1)
+		}
 	} else {
 		v = g.object(kind, file, depth-1)
 	}
